@@ -202,7 +202,7 @@ func ruleGR2(c *Ctx) *rule {
 	for i, site := range sites {
 		key := fmt.Sprintf("%s AddEdge#%d", fname(site.Parent()), i+1)
 		args := site.Common().Args
-		from, to := args[1], args[2]
+		from, to := c.bindUp(args[1]), c.bindUp(args[2])
 		fs := c.newSlicer()
 		fs.depth = 0
 		fres := fs.run(from)
@@ -319,21 +319,34 @@ func ruleGR3(c *Ctx) *rule {
 			}
 			continue
 		}
-		// all uses dominated by the equal edge
+		// all uses dominated by the equal edge (a phi that merges the result of an inlined helper is an alias, not a use)
 		bad := ""
-		for _, ref := range valueReferrers(order) {
-			if cl, ok := ref.(*ssa.Call); ok {
-				if bi, ok := cl.Call.Value.(*ssa.Builtin); ok && bi.Name() == "len" {
+		seenV := map[ssa.Value]bool{}
+		var checkUses func(v ssa.Value)
+		checkUses = func(v ssa.Value) {
+			if seenV[v] {
+				return
+			}
+			seenV[v] = true
+			for _, ref := range valueReferrers(v) {
+				if cl, ok := ref.(*ssa.Call); ok {
+					if bi, ok := cl.Call.Value.(*ssa.Builtin); ok && bi.Name() == "len" {
+						continue
+					}
+				}
+				if _, ok := ref.(*ssa.DebugRef); ok {
 					continue
 				}
-			}
-			if _, ok := ref.(*ssa.DebugRef); ok {
-				continue
-			}
-			if !edgeDominates(*eqEdge, ref.Block()) {
-				bad = c.ipos(ref)
+				if phi, ok := ref.(*ssa.Phi); ok {
+					checkUses(phi)
+					continue
+				}
+				if !edgeDominates(*eqEdge, ref.Block()) {
+					bad = c.ipos(ref)
+				}
 			}
 		}
+		checkUses(order)
 		_ = fi
 		if bad == "" {
 			r.ok(key, c.ipos(site), "every use of the order is dominated by len(order) == graph.Order()")
@@ -922,7 +935,21 @@ func (c *Ctx) traceToSort(v ssa.Value, depth int) string {
 	case *ssa.Slice:
 		return "the run order is re-sliced before it is iterated (elements left out)"
 	case *ssa.Phi:
-		return "the run order is chosen among several slices"
+		// the merge of an inlined helper's results: nil on its error paths, one real value otherwise
+		var only ssa.Value
+		for _, e := range x.Edges {
+			if isNilConst(e) {
+				continue
+			}
+			if only != nil && only != e {
+				return "the run order is chosen among several slices"
+			}
+			only = e
+		}
+		if only == nil {
+			return "the run order is always nil"
+		}
+		return c.traceToSort(only, depth)
 	case *ssa.Call:
 		return "the run order is the result of " + calleeName(x.Common()) + ", not of Graph.Sort directly"
 	}
@@ -1015,4 +1042,35 @@ func graphProperties() []*propertySpec {
 			Assumptions: []string{"collections/dag v0.10.0: Sort returns each vertex at most once, dependencies first for the acyclic part, and a truncated order with nil error when a cycle coexists with a zero in-degree vertex; AddVertex errors on duplicates; AddEdge errors on unknown ids"},
 			Rules:       []func(*Ctx) *rule{ruleGR1, ruleGR2, ruleGR3, ruleGR4, ruleGR5, ruleGR6, ruleGR7, ruleGR8, ruleST7}},
 	}
+}
+
+// bindUp follows a parameter to the argument it is bound to when its function has exactly one call site in the module
+// (a helper that could not be inlined, e.g. because it is part of a recursion).
+func (c *Ctx) bindUp(v ssa.Value) ssa.Value {
+	for i := 0; i < 4; i++ {
+		var p *ssa.Parameter
+		for _, o := range origins(v) {
+			if q, ok := o.(*ssa.Parameter); ok {
+				p = q
+			}
+		}
+		if p == nil || len(origins(v)) != 1 {
+			return v
+		}
+		sites := c.callersOf(p.Parent())
+		if len(sites) != 1 {
+			return v
+		}
+		idx := -1
+		for j, q := range p.Parent().Params {
+			if q == p {
+				idx = j
+			}
+		}
+		if idx < 0 || idx >= len(sites[0].Common().Args) {
+			return v
+		}
+		v = sites[0].Common().Args[idx]
+	}
+	return v
 }
